@@ -109,7 +109,10 @@ def run_sequence(ctx, make, label, ops, deterministic_obs, payload):
         def counted(state):
             calls['n'] += 1
             return orig(state)
-        env.functional_observation = counted  # instance-level call counter
+        try:
+            env.functional_observation = counted  # instance-level call counter
+        except AttributeError:  # an environment that does not take instance attributes: the call count is not observable
+            ctx.add('call_counter_not_installable')
     count_calls(E)
     s = None
     o = None
@@ -141,7 +144,10 @@ def run_sequence(ctx, make, label, ops, deterministic_obs, payload):
         elif op == 'clone':
             # the environment is replaced by a copy of itself (deepcopy, or a pickle round trip where the environment can be
             # pickled at all): the copy is in the same situation - same state, same (un)computed observation, same generator
-            del E.functional_observation
+            try:
+                del E.functional_observation
+            except AttributeError:
+                pass
             how = 'deepcopy' if i % 2 else 'pickle'
             C = clone_env(E, how)
             if C is None and how == 'pickle':
